@@ -584,9 +584,9 @@ Proof.
   rewrite read_hex_digits; auto; [|cbn; reflexivity].
   rewrite Hv. cbn [crlf app].
   replace (N.of_nat (length p) =? 0) with false by (symmetry; apply N.eqb_neq; lia).
+  replace (N.of_nat (length (p ++ 13 :: 10 :: rest)) <? N.of_nat (length p)) with false
+    by (symmetry; apply N.ltb_ge; rewrite app_length; lia).
   rewrite Nat2N.id.
-  replace (Nat.ltb (length (p ++ 13 :: 10 :: rest)) (length p)) with false
-    by (symmetry; apply Nat.ltb_ge; rewrite app_length; lia).
   rewrite skipn_app, skipn_all, Nat.sub_diag. cbn [skipn app].
   rewrite firstn_app, firstn_all, Nat.sub_diag. cbn [firstn]. rewrite app_nil_r. reflexivity.
 Qed.
